@@ -118,6 +118,14 @@ def run(ctx):
             agree[fn] = n
             r.ok(rule, key, '%s: validated >= %d operands, evaluation uses index <= %d' % (v, n, used[v]), loc=db.body(fn).loc)
     r.floor(rule, 'operators', len(disp), 15)
+    validation_gate(ctx)
+    operand_gate(ctx)
+
+    run_e1(ctx, ENTRY, extra_auto=make_table_auto(ctx, agree))
+
+
+def validation_gate(ctx):
+    r, db = ctx.r, ctx.db
     # ---------------- validation gate
     rule = 'validation-gate'
     vf = db.body(EF + 'validate')
@@ -173,7 +181,42 @@ def run(ctx):
     if not done:
         r.lost(rule, 'create', 'registration of monitored items not found')
 
-    run_e1(ctx, ENTRY, extra_auto=make_table_auto(ctx, agree))
+
+def operand_gate(ctx, rule='operand-gate'):
+    """what validate_where_clause accepts (StatusCode::Good) per operand kind must be what value_of can evaluate:
+    an ElementOperand only with index < elements.len(), an AttributeOperand never (value_of panics on it)"""
+    import json
+    r, db = ctx.r, ctx.db
+    bs = db.find_bodies_mentioning(r'^' + re.escape(EF) + r'validate_where_clause::\{closure', 'ElementOperand')
+    n = 0; elem = 0
+    for b in bs:
+        F = ctx.facts(b)
+        for bi, blk in enumerate(b.blocks):
+            for si, st in enumerate(blk['s']):
+                if st[0] != '=' or 'StatusCode::Good' not in json.dumps(st[2]):
+                    continue
+                lits = F.literals_at(bi, si)
+                kinds = [l[2] for l, e in lits if l[0] == 'variant' and l[3] and l[2] in ('ElementOperand', 'AttributeOperand', 'LiteralOperand', 'SimpleAttributeOperand')]
+                if not kinds:
+                    continue
+                n += 1
+                kind = kinds[-1]
+                key = 'accepts:%s#%d' % (kind, n)
+                if kind == 'AttributeOperand':
+                    r.fail(rule, key, 'validate_where_clause accepts an AttributeOperand, which operator::value_of cannot evaluate (panic!())', loc=b.loc)
+                elif kind == 'ElementOperand':
+                    elem += 1
+                    ok = [l for l, e in lits if l[0] == 'cmp' and l[1] == 'lt' and '.index' in fmt_sym(b, l[2]) and l[3][0] == 'len' and 'elements' in fmt_sym(b, l[3])]
+                    if ok:
+                        r.ok(rule, key, 'an ElementOperand is accepted only under `%s`' % fmt_lit(b, ok[0])[:140], loc=b.loc)
+                    else:
+                        r.fail(rule, key, 'an ElementOperand is accepted without `index < elements.len()`: evaluation indexes the element list with it '
+                               '(operator::value_of, elements[o.index as usize])', loc=b.loc)
+                else:
+                    r.ok(rule, key, '%s accepted (evaluated without indexing)' % kind, loc=b.loc)
+    if not elem:
+        r.lost(rule, 'accepts:ElementOperand', 'the accepting branch for ElementOperand was not found in validate_where_clause')
+    r.count('operand_gate_sites', n)
 
 
 def operand_agreement(ctx):
